@@ -29,6 +29,8 @@ def instantiate(gen_q):
         "C16_eol_comment live_lexicon16 file a x w c b ta ea la t1 e1 l1 live_lexicon16_ok live_lexicon16_tok.\n"
     )
     return text, ["C16_trailing_blanks_live_ok", "C16_eol_comment_live_ok"]
+# model-tie modules whose correspondence is part of this property's check (parts of the model its theorems rest on)
+TIES = ['SCAN']
 RULE = ("valid programs (generated + the repository's sample sources) x 6 random compositions of the listed presentation "
         "changes applied at every applicable position: blank lines, indentation (spaces/tabs), trailing spaces, full-line and "
         "end-of-line ';' comments, '/* */' comments between statements, spaces next to binary operators and commas and inside "
